@@ -677,6 +677,162 @@ def _collect_item(item):
 _COLLECT_PUNCT = [None]
 
 
+# ---------------------------------------------------------------------------------------------
+# multi-step phase: a genome NAME is re-bound to a different genome; every type obtained from a string afterwards must
+# denote the genome that is registered under that name NOW.
+
+GENOME_CONFIGS = [  # (contigs, lengths, x, y, mt)
+    (['1', '2'], {'1': 100, '2': 50}, [], [], []),
+    (['1', '2', 'MT'], {'1': 100, '2': 50, 'MT': 16}, [], [], ['MT']),
+    (['1', 'X'], {'1': 70, 'X': 40}, ['X'], [], []),
+    (['chr1', 'chr2', 'chrY'], {'chr1': 9, 'chr2': 8, 'chrY': 7}, [], ['chrY'], []),
+]
+REBIND_WAYS = ['initial registration', 'backend.remove_reference + new ReferenceGenome', 'new ReferenceGenome under the same name (overwrite)',
+               'fresh context (new session) + new ReferenceGenome']
+
+
+def locus_shapes(n):
+    lo = ('locus', n)
+    i32 = ('int32',)
+    o = 'z' if n != 'z' else 'y'      # a field name different from n
+    return [lo, ('interval', lo), ('array', lo), ('set', lo), ('dict', lo, i32), ('dict', ('str',), lo), ('tuple', (lo,)),
+            ('tuple', (i32, lo)), ('struct', ((o, lo),)), ('struct', ((n, lo),)), ('struct', ((o, i32), (n, lo)))]
+
+
+def _loci(t):
+    hl = _hl()
+    if isinstance(t, hl.tlocus):
+        yield t
+    elif isinstance(t, (hl.tarray, hl.tset)):
+        yield from _loci(t.element_type)
+    elif isinstance(t, hl.tinterval):
+        yield from _loci(t.point_type)
+    elif isinstance(t, hl.tndarray):
+        yield from _loci(t.element_type)
+    elif isinstance(t, hl.tdict):
+        yield from _loci(t.key_type)
+        yield from _loci(t.value_type)
+    elif isinstance(t, (hl.ttuple, hl.tstruct)):
+        for c in t.types:
+            yield from _loci(c)
+
+
+def _genome_facts(rg):
+    return (rg.name, tuple(rg.contigs), tuple(sorted(rg.lengths.items())), tuple(rg.x_contigs), tuple(rg.y_contigs), tuple(rg.mt_contigs))
+
+
+def _build_over(spec, rg):
+    """hail type for a locus-shape spec, over the given genome OBJECT (not looked up by name)."""
+    hl = _hl()
+    k = spec[0]
+    if k in PRIMS:
+        return getattr(hl, 't' + k)
+    if k == 'locus':
+        return hl.tlocus(rg)
+    if k in ('array', 'set', 'interval'):
+        return {'array': hl.tarray, 'set': hl.tset, 'interval': hl.tinterval}[k](_build_over(spec[1], rg))
+    if k == 'dict':
+        return hl.tdict(_build_over(spec[1], rg), _build_over(spec[2], rg))
+    if k == 'tuple':
+        return hl.ttuple(*[_build_over(c, rg) for c in spec[1]])
+    if k == 'struct':
+        return hl.tstruct(**{n: _build_over(c, rg) for n, c in spec[1]})
+    raise ValueError(spec)
+
+
+def _rebind_checks(name, rg, step, shapes_idx=None):
+    """All string->type paths for every locus shape over `name`, whose current binding is the object `rg`.
+    -> (n_parses, [(sig, msg, shape_index)])."""
+    from hail.utils.java import Env
+
+    hl = _hl()
+    out = []
+    parses = 0
+    want = _genome_facts(rg)
+    if Env.backend()._references.get(name) is not rg:
+        raise RuntimeError(f'harness: {name!r} is not bound to the genome just registered')
+    for si, spec in enumerate(locus_shapes(name)):
+        if shapes_idx is not None and si not in shapes_idx:
+            continue
+        t = _build_over(spec, rg)
+        s = str(t)
+        paths = [('hl.dtype(s)', lambda: hl.dtype(s)),
+                 ('hl.missing(s).dtype', lambda: hl.missing(s).dtype),
+                 ('hl.literal(None, dtype=s).dtype', lambda: hl.literal(None, dtype=s).dtype),
+                 ('hl.tarray(s).element_type', lambda: hl.tarray(s).element_type)]
+        for pi, (pname, f) in enumerate(paths):
+            parses += 1
+            try:
+                p = f()
+            except Exception as ex:  # noqa: BLE001
+                out.append(('rebind:string-type-unparseable', f'after {REBIND_WAYS[step]} of genome {name!r}: {pname} with s={s!r} raises '
+                            f'{type(ex).__name__}: {str(ex).splitlines()[0][:160]}', si))
+                continue
+            stale = None
+            for lt in _loci(p):
+                g = lt.reference_genome
+                if g is not rg or _genome_facts(g) != want:
+                    stale = g
+                    break
+                if Env.backend()._references.get(g.name) is not g:
+                    stale = g
+                    break
+            if stale is not None:
+                sig = 'rebind:parsed-type-denotes-stale-genome' if pi == 0 else 'rebind:implicit-string-type-denotes-stale-genome'
+                out.append((sig, f'after {REBIND_WAYS[step]} of genome {name!r} (now contigs {list(rg.contigs)}): {pname} with s={s!r} gives a type over '
+                            f'a genome with contigs {list(stale.contigs)} that is no longer registered under that name', si))
+            elif pi == 0 and not (p == t and t == p and spec_of(p) == spec):
+                out.append(('rebind:roundtrip-unequal', f'after {REBIND_WAYS[step]} of genome {name!r}: hl.dtype({s!r}) != the type it was printed from', si))
+    return parses, out
+
+
+def _make_genome(name, k):
+    hl = _hl()
+    contigs, lengths, x, y, mt = GENOME_CONFIGS[k]
+    return hl.ReferenceGenome(name, list(contigs), dict(lengths), x_contigs=list(x), y_contigs=list(y), mt_contigs=list(mt))
+
+
+def run_rebind_chain(names, shapes_idx=None):
+    """State 0: every name bound to configuration 0; then the three re-binding ways in turn, each followed by all checks
+    for all names.  hail's own caches are never cleared by the harness.  -> (cases, parses, per_step_cases, viol)."""
+    from hail.utils.java import Env
+
+    from vf import hailenv
+
+    viol = {}
+    cases = 0
+    parses = 0
+    per_step = [0] * len(REBIND_WAYS)
+    for step in range(len(REBIND_WAYS)):
+        if step == 3:
+            hailenv.install_dummy_context(fresh=True)
+        bound = {}
+        for n in names:
+            if step == 1:
+                Env.backend().remove_reference(n)
+            bound[n] = _make_genome(n, step)
+        for n in names:
+            np_, vs = _rebind_checks(n, bound[n], step, shapes_idx)
+            parses += np_
+            cases += 1
+            per_step[step] += 1
+            for sig, msg, si in vs:
+                key = (len(n), n, si, step)
+                cur = viol.get(sig)
+                rep = {'kind': 'rebind', 'name': n, 'shape': si}
+                if cur is None:
+                    viol[sig] = [1, key, msg, rep]
+                else:
+                    cur[0] += 1
+                    if key < cur[1]:
+                        cur[1], cur[2], cur[3] = key, msg, rep
+    return cases, parses, per_step, viol
+
+
+def _run_rebind_item(names):
+    return run_rebind_chain(names)
+
+
 _TIER = ['quick']
 
 
@@ -750,11 +906,28 @@ def check(tier, seed, procs):
         for s in r[8]:
             if len(samples) < 4:
                 samples.append(s)
+    # multi-step phase (after the single-state enumeration; forked workers start from the parent's registry and caches)
+    rb_names = [n for n in name_space(tier)]
+    step_ = 10 if tier == 'quick' else 64
+    rb_items = par.rotate([rb_names[i:i + step_] for i in range(0, len(rb_names), step_)], seed)
+    rb_rows = par.pmap(_run_rebind_item, rb_items, procs, chunksize=1)
+    rb_cases = sum(r[0] for r in rb_rows)
+    rb_parses = sum(r[1] for r in rb_rows)
+    rb_steps = [sum(r[2][i] for r in rb_rows) for i in range(len(REBIND_WAYS))]
+    for r in rb_rows:
+        for sig, (cnt, key, msg, rep) in r[3].items():
+            cur = merged.get(sig)
+            if cur is None:
+                merged[sig] = [cnt, tuple(key), msg, rep]
+            else:
+                cur[0] += cnt
+                if tuple(key) < cur[1]:
+                    cur[1], cur[2], cur[3] = tuple(key), msg, rep
     violations = [{'signature': sig, 'message': f'{msg}  [{cnt} enumerated cases in this class]', 'replay': rep}
                   for sig, (cnt, key, msg, rep) in sorted(merged.items())]
     cfgs = STRUCTURE_CONFIGS[tier]
     cov = {
-        'evaluations': types + names,
+        'evaluations': types + names + rb_parses,
         'distinct_nontrivial': nontrivial,
         'rule': 'distinct enumerated types that are not a bare primitive (depth >= 2, or a locus with a genome name); '
                 'every one is printed, re-parsed by hl.dtype and read by the engine-side tokeniser/type grammar',
@@ -768,6 +941,15 @@ def check(tier, seed, procs):
             'structure': [{'config': c[0], 'prims': list(c[1]), 'genomes': c[2], 'field_names': c[3], 'max_depth': c[4],
                            'constructors': 'array set interval ndarray(1,2) dict tuple(0..2) struct(0..2 distinct names)'} for c in cfgs],
         },
+        'rebind_phase': {
+            'what': 'every name of the name space as a genome name; 11 type shapes mentioning locus<NAME> (depth <= 2); 4 registry states per name: '
+                    + ' -> '.join(REBIND_WAYS) + '; after each state 4 string->type paths (hl.dtype, hl.missing(str), hl.literal(None, dtype=str), '
+                    'hl.tarray(str)) must give a type over the genome OBJECT currently registered under the name (identity + contigs/lengths), and no '
+                    'referenced genome may be unregistered; hail caches are never cleared by the harness',
+            'name_x_state_cases': rb_cases,
+            'string_to_type_resolutions_checked': rb_parses,
+            'cases_per_state': dict(zip(REBIND_WAYS, rb_steps)),
+        },
         'types_checked': types,
         'types_by_depth': {str(k): v for k, v in sorted(by_depth.items())},
         'names_checked': names,
@@ -778,7 +960,7 @@ def check(tier, seed, procs):
         'engine_side': _engine_info,
     }
     vac = None
-    if escaped < 5 or bare < 2 or by_depth.get(2, 0) < 100 or by_depth.get(3, 0) < 100:
+    if escaped < 5 or bare < 2 or by_depth.get(2, 0) < 100 or by_depth.get(3, 0) < 100 or min(rb_steps) < 10:
         vac = f'too little explored: {escaped=} {bare=} {by_depth=}'
     return {
         'coverage': cov,
@@ -808,6 +990,9 @@ def replay(obj):
         install_engine(collect_name_texts(obj['name']))
         vs, _ = check_name(obj['name'])
         return (not vs), ('; '.join(f'{s}: {m}' for s, m in vs) or 'no violation')
+    if obj['kind'] == 'rebind':
+        _, _, _, viol = run_rebind_chain([obj['name']], {obj['shape']})
+        return (not viol), ('; '.join(f'{sg}: {v[2]}' for sg, v in sorted(viol.items())) or 'no violation')
     spec = _tuplify(obj['spec'])
     install_engine(collect_type_texts(spec, punct))
     vs = check_type(spec)
